@@ -8,7 +8,8 @@ namespace C18
 /-! ## the static view of a State: stages, versions and the immutable part of every allocation stack -/
 
 def CE.static (e : CE) : CE :=
-  { e with deps := [], value := 0, valVer := 0, stamp := 0, flag := false, gQ := 0, gU := 0, gZ := 0, gDV := [], gCE := [] }
+  { e with deps := [], value := 0, valVer := 0, stamp := 0, flag := false, gQ := 0, gU := 0, gZ := 0, gDV := [], gCE := [],
+           fresh := false }
 def DV.static (d : DV) : DV := { d with deps := [], value := 0, valVer := 0, tLast := none }
 def Sub.view (sb : Sub) : Sub := { sb with dvs := sb.dvs.map DV.static, ces := sb.ces.map CE.static }
 def St.view (st : St) : St := { sys := st.sys, sysVers := st.sysVers, subs := st.subs.map Sub.view }
@@ -111,6 +112,15 @@ theorem view_markCE (st : St) (k : Key) : (st.markCE k).view = st.view := by
   · rfl
   · exact view_modCE _ _ _ (fun _ => rfl)
 
+theorem CE.unfresh_static (e : CE) (g cur : Nat) : (e.unfresh g cur).static = e.static := by
+  unfold CE.unfresh; split <;> rfl
+@[simp] theorem CE.unfresh_alloc (e : CE) (g cur : Nat) : (e.unfresh g cur).alloc = e.alloc := by
+  unfold CE.unfresh; split <;> rfl
+@[simp] theorem CE.unfresh_dep (e : CE) (g cur : Nat) : (e.unfresh g cur).dep = e.dep := by
+  unfold CE.unfresh; split <;> rfl
+@[simp] theorem CE.unfresh_comp (e : CE) (g cur : Nat) : (e.unfresh g cur).comp = e.comp := by
+  unfold CE.unfresh; split <;> rfl
+
 /-! ### popBack commutes with maps that keep the allocation stage -/
 theorem popBack_map {α β : Type} (a : α → Nat) (b : β → Nat) (h : α → β) (g : Nat) (l : List α)
     (hab : ∀ x, b (h x) = a x) : popBack b g (l.map h) = (popBack a g l).map h := by
@@ -133,8 +143,14 @@ theorem restore_view (sb : Sub) (g : Nat) : (sb.restore g).view = sb.view.restor
     · simp only [h2, if_false]
       unfold Sub.view
       simp only [Sub.mk.injEq, true_and]
-      exact ⟨(popBack_map DV.alloc DV.alloc DV.static g _ (fun _ => rfl)).symm,
-             (popBack_map CE.alloc CE.alloc CE.static g _ (fun _ => rfl)).symm⟩
+      refine ⟨(popBack_map DV.alloc DV.alloc DV.static g _ (fun _ => rfl)).symm, ?_⟩
+      rw [List.map_map, popBack_map CE.alloc CE.alloc CE.static g _ (fun _ => rfl), List.map_map]
+      apply List.map_congr_left
+      intro e _
+      simp only [Function.comp]
+      unfold CE.unfresh
+      show CE.static _ = (if g < e.dep ∧ e.dep ≤ sb.cur then _ else _)
+      split <;> rfl
 
 /-- stage / stack part of `invalidateJustSystemStage` + `restoreToStage` on every subsystem -/
 def St.invalAllV (v : St) (g : Nat) : St :=
@@ -287,9 +303,12 @@ theorem SubGood.restore {sys : Nat} {sb : Sub} (h : SubGood sys sb) (g : Nat) :
       exact { sys_le := Nat.min_le_right _ _, cur_le := by simp; omega,
               vlen := by simp [h.vlen], vpos := bump_pos _ _ _ h.vpos,
               q := h.q.pop, u := h.u.pop, z := h.z.pop, qerr := h.qerr.pop, uerr := h.uerr.pop,
-              udoterr := h.udoterr.pop, trig := h.trig.pop, dvs := h.dvs.pop, ces := h.ces.pop,
+              udoterr := h.udoterr.pop, trig := h.trig.pop, dvs := h.dvs.pop,
+              ces := (StackOK.map_iff (a := CE.alloc) (b := CE.alloc) (fun e => e.unfresh g sb.cur) (fun _ => CE.unfresh_alloc _ _ _)).mpr h.ces.pop,
               dvwf := fun d hd => h.dvwf d (popBack_sublist _ _ _ d hd),
-              cewf := fun e he => h.cewf e (popBack_sublist _ _ _ e he) }
+              cewf := fun e he => by
+                obtain ⟨x, hx, rfl⟩ := List.mem_map.mp he
+                simpa using h.cewf x (popBack_sublist _ _ _ x hx) }
 
 theorem Good.invalAllV {v : St} (h : Good v) (g : Nat) (hg : 1 ≤ g) : Good (v.invalAllV g) := by
   unfold St.invalAllV
@@ -699,8 +718,8 @@ theorem SubGood.copyOf {sys : Nat} {sb : Sub} (h : SubGood sys sb) : SubGood (mi
         · split <;> omega,
       q := h.q.pop, u := h.u.pop, z := h.z.pop, qerr := h.qerr.pop, uerr := h.uerr.pop,
       udoterr := h.udoterr.pop, trig := h.trig.pop,
-      dvs := (StackOK.map_iff (a := DV.alloc) (b := DV.alloc) (fun d => { d with deps := [] }) (fun _ => rfl)).mpr h.dvs.pop,
-      ces := (StackOK.map_iff (a := CE.alloc) (b := CE.alloc) (fun e => { e with deps := [] }) (fun _ => rfl)).mpr h.ces.pop,
+      dvs := (StackOK.map_iff (a := DV.alloc) (b := DV.alloc) DV.copied (fun _ => rfl)).mpr h.dvs.pop,
+      ces := (StackOK.map_iff (a := CE.alloc) (b := CE.alloc) (fun e => e.copied (min sb.cur 3)) (fun _ => rfl)).mpr h.ces.pop,
       dvwf := by
         simp only
         intro d hd
@@ -860,5 +879,6 @@ theorem WInv.step {w : World} (h : WInv w) (op : Op) (hl : legal w op = true) : 
     | none => simpa [hk] using h
     | some st => exact fun st' hst' => h st' hst'
   | diff k => exact h
+  | probeStale k s c => exact h
 
 end C18
